@@ -326,6 +326,11 @@ def none_check(ctx, rr):
                     # the use must be reached from this read (same variable may be assigned elsewhere): accept NN fact
                     if ('NN', var) not in facts:
                         bad.append(x)
+                if bad and u.cls in HDRC and u.name == 'read':
+                    # the header block is read after the caller ensured it (checked, not assumed), as for the direct form
+                    callers = [v for v in P.units if u in P.calls[v]]
+                    if callers and all(_ensure_dominates(ctx, v, u) for v in callers):
+                        bad = []
                 ok = not bad
                 rr.ob(ctx.where(u, c), 'result `%s` of storage.read is tested for None before each of its %d consuming uses'
                       % (var, len(uses)), ok=ok)
@@ -509,7 +514,10 @@ def chunk_last(ctx, rr):
                     if isinstance(f.iter, ast.Call) and isinstance(f.iter.func, ast.Name) and f.iter.func.id == 'range' and len(f.iter.args) == 1 \
                             and isinstance(f.target, ast.Name):
                         I, Ncount = f.target.id, ast.unparse(f.iter.args[0])
-                        txt = ast.unparse(flag).replace(' ', '')
+                        from ..dataflow import rtext as _rtext
+                        txt = _rtext(P, u, flag)
+                        Ncount = _rtext(P, u, f.iter.args[0])
+                        txt = txt.replace('(%s)' % Ncount, Ncount) if not Ncount.isidentifier() else txt
                         if txt in ('%s==%s-1' % (I, Ncount), '%s-1==%s' % (Ncount, I), '%s+1==%s' % (I, Ncount), '%s>=%s-1' % (I, Ncount)):
                             ok = True
                         elif isinstance(flag, ast.Compare):
@@ -525,7 +533,8 @@ def chunk_last(ctx, rr):
         for a in P.own(u, ast.Assign):
             if isinstance(a.targets[0], ast.Name) and any(isinstance(f, ast.For) and isinstance(f.iter, ast.Call) and isinstance(f.iter.func, ast.Name) and f.iter.func.id == 'range'
                                                           and f.iter.args and ast.unparse(f.iter.args[0]) == a.targets[0].id for f in P.own(u, ast.For)):
-                txt = ast.unparse(a.value).replace(' ', '')
+                from ..dataflow import rtext as _rtext2
+                txt = _rtext2(P, u, a.value)
                 ps = u.params
                 good = False
                 if len(ps) >= 2:
